@@ -23,7 +23,7 @@ fn main() {
         check_assoc::<B>(&u3[(i / (n3 * n3)) as usize], &u3[((i / n3) % n3) as usize], &u3[(i % n3) as usize], loc)
     }));
     // lax pairs with pending unifications
-    let lspec = if quick { Spec::lax(2, 1, 1, 2, 2, 1, 1, 1) } else { Spec::lax(2, 1, 2, 2, 1, 1, 1, 2) };
+    let lspec = if quick { Spec::lax(2, 1, 1, 2, 2, 1, 1, 1) } else { Spec::lax(2, 1, 1, 2, 2, 1, 1, 2) };
     let lu = lspec.universe().all();
     let ln = lu.len() as u64;
     ctx.run_slice(Slice::new(format!("lax-pairs[{}^2]", lspec.name()), ln * ln, |i, loc| check_lax_pair(&lu[(i / ln) as usize], &lu[(i % ln) as usize], loc)));
